@@ -252,7 +252,9 @@ def main(argv):
     # ---- verdicts
     violations = []
     known_hits = []
-    errors = []
+    errors = []           # the check itself is broken or would be vacuous: exit 2
+    undecided = []        # the harness cannot follow the code under test on some obligation (a stand-in lacks what the code now uses, a proxy meets an
+                          # operation it cannot model, a witness that does not reproduce): says nothing about the property, never an alarm
     inconclusive = []
     per_ob = {}
     os.makedirs(os.path.join(out_dir, 'replays'), exist_ok=True)
@@ -349,7 +351,7 @@ def main(argv):
                 os.remove(rp)
             else:
                 d['status'] = 'harness-error'
-                errors.append('%s case %r: solver witness did not reproduce on the real code (rc=%d): %s\n%s' % (
+                undecided.append('%s case %r: solver witness did not reproduce on the real code (rc=%d): %s\n%s' % (
                     o.name, _short(case), rc, r.get('failed'), out[-1500:]))
         elif st in ('unknown', 'budget'):
             if d['status'] == 'discharged':
@@ -358,9 +360,9 @@ def main(argv):
             d['notes'].append('%s: %s' % (st, r.get('detail', '')))
         else:
             d['status'] = 'harness-error'
-            errors.append('%s case %r: %s' % (o.name, _short(case), r.get('detail', '')))
+            undecided.append('%s case %r: %s' % (o.name, _short(case), r.get('detail', '')))
     if stopped_early and not violations:
-        errors.append('run cut short after a candidate violation that did not reproduce; %d of %d cases finished' % (len(results), len(_TASKS)))
+        undecided.append('run cut short after a candidate violation that did not reproduce; %d of %d cases finished' % (len(results), len(_TASKS)))
     # known findings that are still present are reported by the harness' own probes
     for kf, obname in known_hits:
         pass
@@ -385,6 +387,8 @@ def main(argv):
             print('  | ' + line)
     for e in errors:
         print('HARNESS-ERROR property=%s %s' % (pid, e))
+    for e in undecided:
+        print('UNDECIDED property=%s (the harness cannot follow the code on this obligation; no verdict) %s' % (pid, e))
     for e in inconclusive:
         print('INCONCLUSIVE property=%s %s' % (pid, e))
     # ---- evidence
@@ -430,7 +434,7 @@ def main(argv):
             'solver_s': round(sum(d['solver_s'] for d in per_ob.values()), 2),
             'cpu_s': round(sum(d['cpu_s'] for d in per_ob.values()), 2),
             'inconclusive': inconclusive,
-            'harness_errors': errors,
+            'harness_errors': errors + ['undecided: ' + u for u in undecided],
             'known_findings_reported': sorted(printed),
             'obligations_detail': [
                 {'name': o.name, 'engine': o.kind, 'what': o.desc, 'functions_encoded': o.functions, 'source_sha256_16': _src_hash(o.functions),
@@ -442,12 +446,14 @@ def main(argv):
         'assumptions': list(getattr(mod, 'ASSUMPTIONS', [])),
     }
     json.dump(evidence, open(ev_path, 'w'), indent=1, default=repr)
-    print('%s %s: %d obligations, %d discharged, %d paths, %d solver queries, %.1fs wall; violations=%d inconclusive=%d errors=%d' % (
-        pid, tier, n_ob, discharged, paths, queries, time.time() - t0, len(violations), len(inconclusive), len(errors)))
+    print('%s %s: %d obligations, %d discharged, %d paths, %d solver queries, %.1fs wall; violations=%d inconclusive=%d errors=%d undecided=%d' % (
+        pid, tier, n_ob, discharged, paths, queries, time.time() - t0, len(violations), len(inconclusive), len(errors), len(undecided)))
     if violations:
         return 1
     if errors:
         return 2
+    if undecided and discharged == 0:
+        return 2        # nothing at all could be decided: the check is broken for this tree, not quiet
     return 0
 
 
